@@ -45,6 +45,14 @@ def classify(fn, recv, depth=0):
             if c is not None and len(names) == 1:
                 return c
     of = e[3] if isinstance(e, tuple) and e[0] == "field" else None
+    if names and names[-1].isdigit() and isinstance(e, tuple) and e[0] == "field" and depth < 6:
+        # the only field of a private newtype around the atomic (`struct Unmatched(AtomicU32)`): the wrapper is the object
+        c = classify(fn, e[1], depth + 1)
+        if c is not None:
+            return c
+        ty_ = e[3] or ""
+        if "Unmatched" in ty_:
+            return "unmatched"
     if names:
         last = names[-1]
         if "__" in last:  # closure capture of self.canceled => self__canceled
@@ -215,6 +223,9 @@ def rule_matchers_confined(ctx):
     for target, allowed in (("worker::Worker::<T>::process_new_items", ("worker::Worker::<T>::run",)),
                             ("worker::Worker::<T>::run", tuple(c[3] for c in spawned))):
         cs = calls_to(facts, "nucleo", lambda t, target=target: callee(t) == target)
+        if facts.body("nucleo", target) is None and not cs:
+            ctx.ok("crate nucleo", "%s no longer exists as a function of its own (its code, if any, lives in its callers): nothing to confine" % target)
+            continue
         ctx.floor("callers of " + target, len(cs), 1)
         for fn, bi, t in cs:
             if fn.path in allowed:
@@ -296,14 +307,25 @@ def rule_guard_moved(ctx):
         if p is None or p["p"]:
             continue
         ty = ti.b["locals"][p["l"]]["ty"]
-        if "ArcMutexGuard" in ty:
+        wraps = False
+        if "ArcMutexGuard" not in ty:
+            # a private wrapper around the guard (`struct Locked<T>(ArcMutexGuard<..>)`) owns it just the same
+            a_ = facts.adt("nucleo", ty.split("<")[0])
+            if a_ is not None and any("ArcMutexGuard" in f_["ty"] for v_ in a_["variants"] for f_ in v_["fields"]):
+                wraps = True
+        if "ArcMutexGuard" in ty or wraps:
             found = True
             if "move" not in o:
                 ctx.violation("Nucleo::<T>::tick_inner|guard-capture|1", site(ti, bi, si), "worker guard captured by reference, not moved into the run closure")
                 continue
             srcs = set()
             for dbi, dsi, e in ti.def_exprs(p["l"]):
-                srcs |= head_sources(ti, e)
+                if wraps and isinstance(e, tuple) and e and e[0] == "agg":
+                    # the wrapper literal: where the wrapped guard comes from
+                    for fv in e[2].values():
+                        srcs |= head_sources(ti, fv)
+                else:
+                    srcs |= head_sources(ti, e)
             locks = [s for s in srcs if s.endswith("lock_arc") or s.endswith("try_lock_arc_for")]
             if locks and all(("lock_arc" in s or "Option" in s or "unwrap" in s) for s in srcs):
                 ctx.ok(site(ti, bi, si), "run closure owns the ArcMutexGuard obtained from %s" % sorted(locks))
